@@ -30,9 +30,17 @@ asynchronous HyperbandScheduler types a divergence is NOT reported if, at the di
 threshold was within round-off of the metric value it was compared with (the premise of C15); scenarios with ties are
 only used for the C05 clauses, never for the symmetric comparison.
 
-DEHB and failures: the main DEHB catalogue lets a job fail only if its rung keeps at least as many survivors as the
-next rung has slots and three jobs have already succeeded (DEHB needs three parents for a mutation).  Arbitrary
-failure subsets are driven by a separate catalogue whose requests for work are judged by the clauses ``dehb-...``.
+DEHB: the main DEHB catalogue uses as many brackets per iteration as there are rungs and lets a job fail only if its
+rung keeps at least as many survivors as the next rung has slots and three jobs have already succeeded.  Outside this
+regime the pinned tree does not serve every request for work; so that these discrepancies do not mask anything else
+each has its own clause, decided from the reference state at the moment of the request (not from the outcome):
+  * ``dehb-suggest-returns-work-when-rung-below-has-too-few-survivors`` / ``dehb-suggest-does-not-raise-when-...``:
+    the job is for rung r > 0 of a bracket whose rung r - 1 has fewer survivors than rung r has slots (suggest answers
+    None, which makes the Tuner stop the experiment, or raises KeyError(None) in the DE mutation),
+  * ``dehb-suggest-is-served-when-jobs-failed-before-three-succeeded`` (AssertionError "Cannot compose parent pool"),
+  * ``dehb-suggest-is-served-when-fewer-brackets-than-rungs-are-configured``: num_brackets_per_iteration < number of
+    rungs (IndexError, or an endless loop in trial_id_from_parent_slot; a SIGALRM watchdog of 5 s ends the call).
+Everything else -- also for DEHB -- is judged by ``request-for-work-is-served-without-blocking``.
 
 Bounded stand-in, never counted as proved.
 """
@@ -615,7 +623,7 @@ def _part_bracket_and_manager(M, tier, rs):
                     nrot += 1
                     ctx = {"part": "single bracket", "rungs": rungs, "workers": W, "return_order_choices": list(choices), "failing_jobs": sorted(fails), "value_seed": nrot % 997}
                     _pair_manager(M, ctx, mk_bracket(rungs), [rungs], W, choices, fails, _values(nrot % 997, 16), "bracket")
-    M.sample({"part": "single bracket", "rungs": brackets[2], "workers": 2, "note": "all return orders x all failure subsets"})
+    M.sample({"part": "single bracket", "rungs": brackets[2], "workers": "1..3", "note": "return orders x failure subsets (complete for small products, else sampled), values by rotation"})
 
     # --- bracket manager, enumerated: per step (which pending job returns) x (fails or reports)
     enum = [
@@ -645,7 +653,7 @@ def _part_bracket_and_manager(M, tier, rs):
         _geometric(2, 16, 2, 1),
         [[(7, 1), (5, 2), (2, 3), (1, 7)], [(6, 2), (3, 3), (2, 7)], [(4, 3), (1, 7)]],
         [[(5, 2), (4, 3)], [(4, 3)]],
-        [[(1, 1), (1, 2)]] if False else [[(2, 1), (1, 2), ], [(2, 2)]],
+        [[(2, 1), (1, 2)], [(2, 2)]],
     ]
     if not quick:
         big += [_geometric(1, 27, 3), _geometric(1, 16, 2, 3), _geometric(3, 30, 2.5)]
@@ -763,7 +771,7 @@ def _run_scheduler(M, ctx, make, systems, mode, sign, W, choices, fails, values,
                 if fewbr:
                     M.check(CL_DEHB_FEWBR, raised is None and sugg is not None, ctx, raised=repr(raised)[:300], suggestion=repr(sugg)[:100], reason="suggest raises / hangs / answers None (trial_id_from_parent_slot: bracket_delta = num_brackets - rung_index <= 0)", **det)
                 elif few:
-                    M.check(CL_DEHB_RAISE, raised is None, ctx, raised=repr(raised)[:300], reason="suggest raises: the top list of the rung below contains failed slots (trial_id None)", **det)
+                    M.check(CL_DEHB_RAISE, raised is None, ctx, raised=repr(raised)[:300], reason="suggest raises (KeyError(None): the top list of the rung below contains failed slots whose trial_id is None)", **det)
                     if raised is None:
                         M.check(CL_DEHB_NONE, sugg is not None, ctx, reason="suggest answers None (the Tuner stops the experiment) because a slot of the next rung would have to be filled with a failed trial", **det)
                 elif dehb and nsucc < 3 and stats["failed"] > 0:
@@ -825,9 +833,7 @@ def _run_scheduler(M, ctx, make, systems, mode, sign, W, choices, fails, values,
                 trace.append(("sugg", bool(sugg.spawn_new_trial_id), tid, _cfg_key(config), config.get(MAXATTR), bid, r, sidx))
                 running.append([njob, tid, ident, bid, r, sidx, level, config])
                 njob += 1
-                if not sugg.spawn_new_trial_id:
-                    pass
-                else:
+                if sugg.spawn_new_trial_id:
                     sched.on_trial_add(Trial(tid, config, None))
             j, tid, ident, bid, r, sidx, level, config = running.pop(ch % len(running))
             trial = Trial(tid, config, None)
@@ -923,7 +929,7 @@ def _part_schedulers(M, tier, rs):
         return make
 
     # --- synchronous Hyperband scheduler, enumerated
-    enum = [([[(2, 1), (1, 2)], [(1, 2)]], 2, 5 if quick else 6), ([[(3, 1), (2, 2), (1, 4)], [(2, 2), (1, 4)], [(1, 4)]], 2, 5 if quick else 7), ([[(3, 1), (1, 3)]], 3, 3 if quick else 5)]
+    enum = [([[(2, 1), (1, 2)], [(1, 2)]], 2, 5 if quick else 6), ([[(3, 1), (2, 2), (1, 4)], [(2, 2), (1, 4)], [(1, 4)]], 2, 5 if quick else 6), ([[(3, 1), (1, 3)]], 3, 3 if quick else 4)]
     nrot = 0
     for systems, W, T in enum:
         for combo in itertools.product(range(2 * W), repeat=T):
@@ -932,7 +938,7 @@ def _part_schedulers(M, tier, rs):
             nrot += 1
             vseed = 3000 + nrot % 251
             ctx = {"part": "SynchronousHyperbandScheduler (enumerated)", "bracket_rungs": systems, "workers": W, "return_order_choices": choices, "failing_jobs": sorted(fails), "value_seed": vseed, "scheduler_seed": nrot % 7}
-            _pair_scheduler(M, ctx, mk_sync(systems, nrot % 7, use_maxattr=(nrot % 4 != 3)), systems, W, choices, fails, _values(vseed, 2048), CL_SYM_SCHED, use_maxattr=(nrot % 4 != 3))
+            _pair_scheduler(M, ctx, mk_sync(systems, nrot % 7, use_maxattr=(nrot % 4 != 3)), systems, W, choices, fails, _values(vseed, 4096), CL_SYM_SCHED, use_maxattr=(nrot % 4 != 3))
     M.sample({"part": "SynchronousHyperbandScheduler (enumerated)", "bracket_rungs": enum[1][0], "workers": enum[1][1], "steps": enum[1][2], "note": "every (which running job ends, report/fail) sequence, both modes"})
 
     # --- synchronous Hyperband scheduler, random (custom + geometric, incl. SynchronousGeometricHyperbandScheduler)
@@ -957,10 +963,10 @@ def _part_schedulers(M, tier, rs):
             sseed = int(rs.randint(0, 10 ** 4))
             ties = k % 5 == 4
             ctx = {"part": "SynchronousHyperbandScheduler (random)" if geo is None else "SynchronousGeometricHyperbandScheduler (random)", "bracket_rungs": systems, "geometric(grace,max,rf,brackets)": geo, "workers": W, "return_order_choices": choices, "failing_jobs": sorted(fails), "value_seed": vseed, "scheduler_seed": sseed, "ties": ties}
-            _pair_scheduler(M, ctx, mk_sync(systems, sseed, geo=geo), systems, W, choices, fails, _values(vseed, 2048, ties), CL_SYM_SCHED, ties=ties)
+            _pair_scheduler(M, ctx, mk_sync(systems, sseed, geo=geo), systems, W, choices, fails, _values(vseed, 4096, ties), CL_SYM_SCHED, ties=ties)
 
     # --- DEHB scheduler: enumerated (failures constrained), random (constrained), arbitrary failures (own clauses)
-    denum = [([(3, 1), (2, 2), (1, 4)], None, 2, 5 if quick else 7), ([(2, 1), (1, 3)], None, 3, 3 if quick else 5)]
+    denum = [([(3, 1), (2, 2), (1, 4)], None, 2, 5 if quick else 6), ([(2, 1), (1, 3)], None, 3, 3 if quick else 4)]
     nrot = 0
     for first, nb, W, T in denum:
         systems = _dehb_systems(first, nb)
@@ -971,7 +977,7 @@ def _part_schedulers(M, tier, rs):
             vseed = 4000 + nrot % 251
             pr = nrot % 3 != 2
             ctx = {"part": "DEHB scheduler (enumerated, failures keep enough survivors)", "rungs_first_bracket": first, "num_brackets": nb, "workers": W, "return_order_choices": choices, "failing_jobs(before constraint)": sorted(fails), "value_seed": vseed, "scheduler_seed": nrot % 5, "support_pause_resume": pr}
-            _pair_scheduler(M, ctx, mk_dehb(first, nb, nrot % 5, pr), systems, W, choices, fails, _values(vseed, 2048), CL_SYM_DEHB, dehb=True, pause_resume=pr, constrain=True)
+            _pair_scheduler(M, ctx, mk_dehb(first, nb, nrot % 5, pr), systems, W, choices, fails, _values(vseed, 4096), CL_SYM_DEHB, dehb=True, pause_resume=pr, constrain=True)
     dcases = [([(9, 1), (5, 2), (3, 4), (1, 8)], None), ([(4, 1), (2, 3), (1, 9)], None), ([(9, 1), (3, 3), (1, 9)], None), ([(6, 1), (4, 2), (3, 3), (2, 4), (1, 5)], None), ([(5, 2), (2, 6)], None)]
     for first, nb in dcases:
         systems = _dehb_systems(first, nb)
@@ -985,7 +991,7 @@ def _part_schedulers(M, tier, rs):
             sseed = int(rs.randint(0, 10 ** 4))
             pr = k % 3 != 2
             ctx = {"part": "DEHB scheduler (random, failures keep enough survivors)", "rungs_first_bracket": first, "num_brackets": nb, "workers": W, "return_order_choices": choices, "failing_jobs(before constraint)": sorted(fails), "value_seed": vseed, "scheduler_seed": sseed, "support_pause_resume": pr}
-            _pair_scheduler(M, ctx, mk_dehb(first, nb, sseed, pr), systems, W, choices, fails, _values(vseed, 2048), CL_SYM_DEHB, dehb=True, pause_resume=pr, constrain=True)
+            _pair_scheduler(M, ctx, mk_dehb(first, nb, sseed, pr), systems, W, choices, fails, _values(vseed, 4096), CL_SYM_DEHB, dehb=True, pause_resume=pr, constrain=True)
     M.sample({"part": "DEHB scheduler (random)", "rungs_first_bracket": dcases[0][0], "workers": "1..6", "support_pause_resume": "both", "note": "promotions in the first bracket checked against the rung just completed; min/max twin runs compare configurations"})
     # fewer brackets per iteration than rungs (allowed by the constructor; brackets=1 is "successive halving")
     fb = [([(8, 1), (4, 2), (2, 4), (1, 8)], 1), ([(8, 1), (4, 2), (2, 4), (1, 8)], 2), ([(9, 1), (3, 3), (1, 9)], 2), ([(4, 1), (2, 3), (1, 9)], 1), ([(6, 1), (4, 2), (3, 3), (2, 4), (1, 5)], 3)]
@@ -1004,7 +1010,7 @@ def _part_schedulers(M, tier, rs):
             vseed = int(rs.randint(0, 10 ** 6))
             sseed = int(rs.randint(0, 10 ** 4))
             ctx = {"part": "DEHB scheduler (fewer brackets than rungs, failures keep enough survivors)", "rungs_first_bracket": first, "num_brackets_per_iteration": nb, "workers": W, "return_order_choices": choices, "failing_jobs(before constraint)": sorted(fails), "value_seed": vseed, "scheduler_seed": sseed}
-            _pair_scheduler(M, ctx, mk_dehb(first, nb, sseed, True), systems, W, choices, fails, _values(vseed, 2048), CL_SYM_DEHB, dehb=True, pause_resume=True, constrain=True, fewbr=True)
+            _pair_scheduler(M, ctx, mk_dehb(first, nb, sseed, True), systems, W, choices, fails, _values(vseed, 4096), CL_SYM_DEHB, dehb=True, pause_resume=True, constrain=True, fewbr=True)
     # arbitrary failure subsets (a small fixed catalogue + random): judged by the dehb-... clauses
     hv = [([(3, 1), (2, 2), (1, 4)], None), ([(4, 1), (3, 2), (2, 4)], None), ([(2, 1), (1, 2)], None)]
     for first, nb in hv:
@@ -1015,12 +1021,12 @@ def _part_schedulers(M, tier, rs):
             pfail = float(rs.choice([0.5, 0.8]))
             choices = [int(x) for x in rs.randint(0, 1000, size=T)]
             fails = {int(j) for j in np.nonzero(rs.rand(T + W + 2) < pfail)[0]}
-            if k < 3:  # fixed members of the catalogue: two of three base jobs fail / the very first job fails / all fail
-                W, choices, fails = 1, [0] * 12, [{1, 2}, {0}, set(range(40))][k]
+            if k < 3:  # fixed members: the first two jobs fail (one resp. three workers) / every job fails
+                W, choices, fails = [1, 3, 1][k], [0] * 12, [{0, 1}, {0, 1}, set(range(40))][k]
             vseed = int(rs.randint(0, 10 ** 6))
             sseed = int(rs.randint(0, 10 ** 4))
             ctx = {"part": "DEHB scheduler (arbitrary failure subsets)", "rungs_first_bracket": first, "num_brackets": nb, "workers": W, "return_order_choices": choices, "failing_jobs": sorted(fails), "value_seed": vseed, "scheduler_seed": sseed}
-            _pair_scheduler(M, ctx, mk_dehb(first, nb, sseed, True), systems, W, choices, fails, _values(vseed, 2048), CL_SYM_DEHB, dehb=True, pause_resume=True)
+            _pair_scheduler(M, ctx, mk_dehb(first, nb, sseed, True), systems, W, choices, fails, _values(vseed, 4096), CL_SYM_DEHB, dehb=True, pause_resume=True)
 
 
 # ---------------------------------------------------------------------------------------------------------------
@@ -1196,12 +1202,16 @@ def _run_async(stype, mode, sign, table, W, rf, brackets, sseed, choices, fails,
 
 def _part_async(M, tier, rs):
     quick = tier == "quick"
-    nper = 8 if quick else 40
     with _QuantileSpy() as spy:
         for stype in ASYNC_TYPES:
+            nper = (8 if quick else 40) * (3 if stype == "pasha" else 1)
             eps_max = 0.0
             npromo = 0
-            for k in range(nper):
+            k = -1
+            while True:
+                k += 1
+                if k >= nper and not (stype == "pasha" and eps_max <= 0.0 and k < nper + 12):
+                    break  # (PASHA: up to 12 extra runs until the noise estimate epsilon became positive once)
                 # reduction factors 2 and 4: thresholds are exact in both modes; 3: q = 1/3 vs 1 - 1/3 differ by
                 # round-off, such runs usually end (excused) at the first threshold that coincides with a value
                 rf = 3 if k % 4 == 3 else (2 if k % 2 == 0 else 4)
@@ -1262,17 +1272,20 @@ def monitor_sync(tier="quick", seed=0):
         _part_async(M, tier, np.random.RandomState(rs.randint(0, 2 ** 31 - 1)))
     finally:
         logging.disable(prev_disable)
-    empty = [c for c in CLAUSES if M.counts[c] == 0]
-    if empty:
+    empty = [c for c in CLAUSES if M.counts[c] == 0 and c not in M.nviol]
+    if empty and not M.viol:
         raise RuntimeError("clauses without a single check: %s" % empty)
-    if M.stats.get("sched_resumed", 0) == 0 or M.stats.get("sched_failed", 0) == 0:
+    for c in empty:
+        # other violations aborted every scenario that reaches this clause: it must not look green
+        M.check(c, False, None, reason="clause could not be exercised: every scenario that reaches it was aborted by the violations of other clauses")
+    if not M.viol and (M.stats.get("sched_resumed", 0) == 0 or M.stats.get("sched_failed", 0) == 0):
         raise RuntimeError("scheduler scenarios without resumed / failed trials: %r" % (M.stats,))
     for v in M.viol:
         v["occurrences_of_clause"] = M.nviol[v["clause"]]
     summary = (
-        "tier %s seed %d: get_top_list all rank permutations x failure subsets x new_len for rungs <= %d slots (+ random <= 13); single brackets <= 7 jobs: all return orders (W <= 3) x all failure subsets; "
+        "tier %s seed %d: get_top_list all rank permutations x failure subsets x new_len for rungs <= %d slots (+ random <= 13); single brackets <= 7 jobs, 1-3 workers: return orders x failure subsets, complete where <= %d combinations, else sampled; "
         "bracket managers (sync, DEHB): every (return choice, fail/report) sequence of %s steps for 2-3 workers on 2-3 bracket systems, random schedules 1-9 workers <= %d steps on geometric/custom systems up to 5 rungs, failure probability 0-0.9, with and without ties; "
-        "SynchronousHyperbandScheduler / SynchronousGeometricHyperbandScheduler / DEHB scheduler (pause-resume on/off) driven by a miniature Tuner, enumerated <= %d steps + random <= %d steps, both modes, twin runs min/f vs max/-f; "
-        "PASHA soft ranking: all permutations of <= %d trials x gap patterns x 6 epsilons; HyperbandScheduler types %s: %d twin runs each; checks per clause: %s"
-    ) % (tier, seed, 5 if tier == "quick" else 6, "4-6" if tier == "quick" else "5-7", 70 if tier == "quick" else 160, 5 if tier == "quick" else 7, 70 if tier == "quick" else 150, 4 if tier == "quick" else 5, "/".join(ASYNC_TYPES), 8 if tier == "quick" else 40, M.counts)
+        "SynchronousHyperbandScheduler / SynchronousGeometricHyperbandScheduler / DEHB scheduler (pause-resume on/off) driven by a miniature Tuner, enumerated <= %d steps + random <= %d steps (DEHB: failures keep enough survivors; arbitrary failures and fewer brackets than rungs under the dehb-... clauses), both modes, twin runs min/f vs max/-f; "
+        "PASHA soft ranking: all permutations of <= %d trials x gap patterns x 6 epsilons; HyperbandScheduler types %s: %d twin runs each (pasha x3), <= 260/500 events, reduction factors 2/4 (exact) and 3 (excused at round-off ties); checks per clause: %s"
+    ) % (tier, seed, 5 if tier == "quick" else 6, 1000 if tier == "quick" else 20000, "3-5" if tier == "quick" else "5-7", 70 if tier == "quick" else 160, 5 if tier == "quick" else 6, 70 if tier == "quick" else 150, 4 if tier == "quick" else 5, "/".join(ASYNC_TYPES), 8 if tier == "quick" else 40, M.counts)
     return {"evaluations": int(sum(M.counts.values())), "distinct": int(M.distinct), "clauses": list(CLAUSES), "violations": M.viol, "samples": M.samples[:4], "summary": summary + "; stats: %s" % (M.stats,)}
